@@ -73,12 +73,20 @@ static void run_case(const kase *k, int e){
   matrix *I1, *I2;
   cur_routine = "MatrixInversion"; initMatrix(&I1); MatrixInversion(A, I1); cmp_mat(k, I1, n, n, W, tol); DelMatrix(&I1);
   cur_routine = "MatrixLUInversion"; initMatrix(&I2); MatrixLUInversion(A, I2); cmp_mat(k, I2, n, n, W, tol); DelMatrix(&I2);
+  /* the same calls into outputs that already have the right shape and hold stale numbers (a reused result object) */
+  cur_routine = "MatrixInversion"; NewMatrix(&I1, n, n); MatrixSet(I1, 7.25); MatrixInversion(A, I1); cmp_mat(k, I1, n, n, W, tol); DelMatrix(&I1);
+  cur_routine = "MatrixLUInversion"; NewMatrix(&I2, n, n); MatrixSet(I2, -3.5); MatrixLUInversion(A, I2); cmp_mat(k, I2, n, n, W, tol); DelMatrix(&I2);
   /* linear system [A | b] */
   cur_routine = "SolveLSE";
   { matrix *G; dvector *s; NewMatrix(&G, n, n + 1); initDVector(&s);
     for(int i = 0; i < n; i++){ for(int j = 0; j < n; j++) G->data[i][j] = A->data[i][j]; G->data[i][n] = (double)k->b[i]; }
     SolveLSE(G, s);
     for(int i = 0; i < n; i++) w[i] = rv(k->x[i]) * iu;
+    cmp_vec(k, s, n, w, tol);
+    /* second solve of the same system into the already sized, non-zero result vector */
+    for(int i = 0; i < n; i++){ for(int j = 0; j < n; j++) G->data[i][j] = A->data[i][j]; G->data[i][n] = (double)k->b[i]; }
+    for(size_t i = 0; i < s->size; i++) s->data[i] = 11.0 + (double)i;
+    SolveLSE(G, s);
     cmp_vec(k, s, n, w, tol); DelMatrix(&G); DelDVector(&s); }
   /* least squares and pseudo-inverse on the tall (n+1) x n matrix X */
   { matrix *X; dvector *y, *bta; NewMatrix(&X, n + 1, n); NewDVector(&y, n + 1); initDVector(&bta);
@@ -89,6 +97,9 @@ static void run_case(const kase *k, int e){
     cur_routine = "OrdinaryLeastSquares";
     OrdinaryLeastSquares(X, y, bta);
     for(int i = 0; i < n; i++) w[i] = rv(k->beta[i]) * iu;
+    cmp_vec(k, bta, n, w, 1e-9 * condx * condx);
+    for(size_t i = 0; i < bta->size; i++) bta->data[i] = -5.0 - (double)i;      /* reused, non-zero result vector */
+    OrdinaryLeastSquares(X, y, bta);
     cmp_vec(k, bta, n, w, 1e-9 * condx * condx);
     cur_routine = "MatrixMoorePenrosePseudoinverse";
     matrix *P; initMatrix(&P); MatrixMoorePenrosePseudoinverse(X, P); cmp_mat(k, P, n, n + 1, W, 1e-9 * condx * condx);
